@@ -133,16 +133,22 @@ def matchOrders (w : World) (mid : Nat) (sorted : List Order) (recheck : Bool) :
   let lookup : List (Nat × Rat × List (Rat × Rat)) := (w.market! mid).analytics.map fun a => (a.sel, a.hc, a.traded)
   (sorted.foldl (matchStep mid recheck) (w, lookup)).1
 
+/-- the live orders of one strategy in the market's blotter, in blotter order -/
+def strategyLive (w : World) (mid sid : Nat) : List Order :=
+  ((w.market! mid).blotter.map w.order!).filter fun o => o.strategy = sid ∧ isMwLive o
+
+/-- one iteration of `for strategy, orders in market.blotter._strategy_orders.items()` -/
+def matchStrategy (mid : Nat) (w : World) (sid : Nat) : World :=
+  let live := w.strategyLive mid sid
+  if live.isEmpty then w else w.matchOrders mid (sortOrders live) false
+
 /-- `SimulatedMiddleware._process_simulated_orders` -/
 def mwProcessSimulatedOrders (w : World) (mid : Nat) : World :=
   let m := w.market! mid
   if w.cfg.isolation then
-    -- `for strategy, orders in market.blotter._strategy_orders.items()`: strategies in order of
-    -- their first order in the blotter
+    -- strategies in order of their first order in the blotter
     let strategies := (m.blotter.map fun oid => (w.order! oid).strategy).eraseDups
-    strategies.foldl (fun w sid =>
-      let live := ((w.market! mid).blotter.map w.order!).filter fun o => o.strategy = sid ∧ isMwLive o
-      if live.isEmpty then w else w.matchOrders mid (sortOrders live) false) w
+    strategies.foldl (matchStrategy mid) w
   else
     let live := m.live.map w.order!
     if live.isEmpty then w else w.matchOrders mid (sortOrders live) true
